@@ -21,7 +21,7 @@ def worker_compiled(cfg, tier):
 
     inst, flags = cfg["inst"], dict(zip(FLAGS, cfg["flags"]))
     obs = []
-    nodes, cgr, g = cg.build(inst, node_cls=fixtures.OracleNode)
+    nodes, cgr, g = cg.build(inst, node_cls=fixtures.OracleNodeRng)  # every step advances its key; the key it was handed is its last oracle argument
     gs0 = g.init(jax.random.PRNGKey(1))
     gsr0 = g.init_record(gs0, **flags)
     sup = g.supervisor.name
@@ -79,7 +79,7 @@ def worker_compiled(cfg, tier):
             if flags["output"]:
                 want.append(row(steps_out.output.y).item() == c["outs"][0].v[1])
             if flags["rng"]:
-                e = jx.sa_equal(alg, row(steps_out.rng), gin.rng[kind])
+                e = jx.sa_equal(alg, row(steps_out.rng), c["args"][-1])  # the key the step was handed (not the one it returned)
                 want.append(e if not isinstance(e, bool) else z3.BoolVal(e))
             if flags["inputs"]:
                 ai = 4
@@ -230,6 +230,8 @@ def _replay_faithful(g, gsr0, trB, flB, m, kind, flags):
                 return True
             if flags["state"] and abs(float(st.state.x[seq]) - float(a[2])) > 1e-6:
                 return True
+            if flags["rng"] and not np.array_equal(np.asarray(st.rng[seq]), np.asarray(a[-1])):
+                return True
             if flags["inputs"]:
                 ai = 4
                 for iname in sorted(st.inputs.keys()):
@@ -349,7 +351,11 @@ def worker_async(cfg, tier):
     from props.c03 import _to_obs
     from vlib import pysym
 
-    scen = scen_async_getrecord(cfg) if cfg.get("scen") == "getrecord" else scen_async_record(cfg)
+    if cfg.get("scen") == "selrecord":
+        from props import c03
+        scen = c03.scen_selection(cfg)  # every message a step consumed is recorded, however small max_records is (truncation is by step)
+    else:
+        scen = scen_async_getrecord(cfg) if cfg.get("scen") == "getrecord" else scen_async_record(cfg)
     res, stats = pysym.run_scenario(scen, [A], extra_patch={"rex.asynchronous": {"onp": pysym.FakeNumpy(A.onp)}})
     keymap = {r["name"]: "async-record" for r in res}
     whatmap = {r["name"]: f"threaded runtime: {r['name']} -- violated" for r in res}
@@ -369,6 +375,8 @@ def async_configs(tier):
             for nb, nnb in (((1, 1),) if tier == "quick" else ((0, 0), (1, 0), (1, 1))):
                 out.append(dict(rate=10, scheduling="frequency", advance=False, n_blocking=nb, n_nonblocking=nnb, nticks=2 if tier == "quick" else 3, groups=True,
                                 record_setting=dict(zip(("rng", "inputs", "state", "output"), fl)), max_records=mr))
+    out += [dict(scen="selrecord", nq=3, k=3, window=2, blocking=False, max_records=1), dict(scen="selrecord", nq=3, k=2, window=1, blocking=True, max_records=2, prerecorded=2),
+            dict(scen="selrecord", nq=2, k=2, window=1, blocking=False, max_records=5, prerecorded=4)]
     out += [dict(scen="getrecord", seq_in=[0, 0, 1, 2, 2, 3], last=1), dict(scen="getrecord", seq_in=[0, 1, 2], last=2), dict(scen="getrecord", seq_in=[0, 1, 2], last=0)]
     return out
 
